@@ -689,7 +689,9 @@ func compileStmt(context *funcContext, stmt ast.Stmt, isLastStmt bool) { // {{{
 func compileAssignStmtLeft(context *funcContext, stmt *ast.AssignStmt) (int, []*assigncontext) { // {{{
 	reg := context.RegTop()
 	acs := make([]*assigncontext, 0, len(stmt.Lhs))
-	for _, lhs := range stmt.Lhs {
+	haslocal := assignsLocalInMultiAssign(context, stmt)
+	for i, lhs := range stmt.Lhs {
+		islast := i == len(stmt.Lhs)-1
 		switch st := lhs.(type) {
 		case *ast.IdentExpr:
 			identtype := getIdentRefType(context, context, st)
@@ -700,12 +702,22 @@ func compileAssignStmtLeft(context *funcContext, stmt *ast.AssignStmt) (int, []*
 			case ecUpvalue:
 				context.Upvalues.RegisterUnique(st.Value)
 			case ecLocal:
-				ec.reg = context.FindLocalVar(st.Value)
+				// only the last target may be stored to directly: the stores are emitted last-to-first,
+				// so an earlier local must not be overwritten before the later right-hand sides are read
+				if islast {
+					ec.reg = context.FindLocalVar(st.Value)
+				}
 			}
 			acs = append(acs, &assigncontext{ec, 0, 0, false, false})
 		case *ast.AttrGetExpr:
 			ac := &assigncontext{&expcontext{ecTable, regNotDefined, 0}, 0, 0, false, false}
-			compileExprWithKMVPropagation(context, st.Object, &reg, &ac.ec.reg)
+			if haslocal {
+				// a local assigned by this statement must be read now, not when the store is emitted
+				ac.ec.reg = reg
+				reg += compileExpr(context, reg, st.Object, ecnone(0))
+			} else {
+				compileExprWithKMVPropagation(context, st.Object, &reg, &ac.ec.reg)
+			}
 			ac.keyrk = reg
 			reg += compileExpr(context, reg, st.Key, ecnone(0))
 			if _, ok := st.Key.(*ast.StringExpr); ok {
@@ -720,7 +732,23 @@ func compileAssignStmtLeft(context *funcContext, stmt *ast.AssignStmt) (int, []*
 	return reg, acs
 } // }}}
 
+// assignsLocalInMultiAssign reports whether stmt is a multiple assignment with a local variable among
+// its targets.  In that case operands must not be referenced through the registers of locals (MOVE
+// propagation), because a local may be overwritten before a pending store of the same statement runs.
+func assignsLocalInMultiAssign(context *funcContext, stmt *ast.AssignStmt) bool { // {{{
+	if len(stmt.Lhs) < 2 {
+		return false
+	}
+	for _, lhs := range stmt.Lhs {
+		if st, ok := lhs.(*ast.IdentExpr); ok && getIdentRefType(context, context, st) == ecLocal {
+			return true
+		}
+	}
+	return false
+} // }}}
+
 func compileAssignStmtRight(context *funcContext, stmt *ast.AssignStmt, reg int, acs []*assigncontext) (int, []*assigncontext) { // {{{
+	haslocal := assignsLocalInMultiAssign(context, stmt)
 	lennames := len(stmt.Lhs)
 	lenexprs := len(stmt.Rhs)
 	namesassigned := 0
@@ -754,7 +782,8 @@ func compileAssignStmtRight(context *funcContext, stmt *ast.AssignStmt, reg int,
 		idx := reg
 		reginc := compileExpr(context, reg, expr, ec)
 		if ec.ctype == ecTable {
-			if _, ok := expr.(*ast.LogicalOpExpr); !ok {
+			_, islogical := expr.(*ast.LogicalOpExpr)
+			if !islogical && !(haslocal && reginc > 0 && opGetOpCode(context.Code.Last()) == OP_MOVE) {
 				context.Code.PropagateKMV(context.RegTop(), &ac.valuerk, &reg, reginc)
 			} else {
 				ac.valuerk = idx
@@ -806,7 +835,8 @@ func compileAssignStmt(context *funcContext, stmt *ast.AssignStmt) { // {{{
 				opcode = OP_SETTABLEKS
 			}
 			code.AddABC(opcode, acs[i].ec.reg, acs[i].keyrk, acs[i].valuerk, sline(ex))
-			if !opIsK(acs[i].valuerk) {
+			// only a value held in a temporary consumed a register (a propagated local did not)
+			if !opIsK(acs[i].valuerk) && acs[i].valuerk >= context.RegTop() {
 				reg -= 1
 			}
 		}
